@@ -11,6 +11,7 @@ import PhotVerif.Proofs.LazyTheory
 import PhotVerif.Gen.Bkg2DTable
 import PhotVerif.Model.ProfileNorm
 import PhotVerif.Model.CallObj
+import PhotVerif.Gen.SharedState
 import Mathlib.Algebra.Order.Field.Rat
 import Mathlib.Tactic.FieldSimp
 import Mathlib.Tactic.Ring
@@ -272,5 +273,12 @@ theorem iterative_psfphot_call_independent (a : String) (ha : isConfig rowIterat
 example : isConfig rowPSFPhotometry "grouper" = true := by decide
 
 end calls
+
+/-- TABLE OBLIGATION: see `Gen/SharedState.lean` - no class attribute bound to a mutable literal in a class body is mutated in place
+    by a method, and no module-level mutable literal is mutated (or rebound through `global`) by a function: nothing an object reports
+    can then depend, through such state, on what OTHER objects of the library did before (seed C09-r8 cached the names of the lazy
+    properties of whichever aperture class was touched first in a list shared by all aperture classes). -/
+theorem no_shared_mutable_state :
+    Gen.SharedState.classLevel = [] ∧ Gen.SharedState.moduleLevel = [] := by decide
 
 end PhotVerif.C09
